@@ -224,7 +224,22 @@ class DimEval:
             self.sink(kind, node, msg, key or f"{kind}:{U(node)[:70]}")
 
     def resolved(self, call) -> str:
-        return self.model.callee(self.fv.mod, call) or ""
+        r = self.model.callee(self.fv.mod, call) or ""
+        if isinstance(call.func, ast.Name) and (not r or r == call.func.id):
+            # a local alias of a function (`Yl = spherical.spherical_harmonic_symmetric`)
+            try:
+                d = self.fv.single_def_value(call.func.id, call)
+            except Exception:
+                d = None
+            if d is not None and isinstance(d[0], (ast.Attribute, ast.Name)):
+                import copy as _copy
+
+                alias = _copy.copy(call)
+                alias.func = d[0]
+                r2 = self.model.callee(self.fv.mod, alias) or ""
+                if r2:
+                    return r2
+        return r
 
     def const_fraction(self, node, at):
         """Exact rational value of a constant expression, or a symbolic exponent."""
